@@ -369,13 +369,36 @@ class Facts:
             self.plain[id(n)] = (plain, raw, c)
 
         def split(n, value, make, extra=()):
-            """`x = a if c else b` / `return a if c else b` also count as the two guarded statements."""
+            """`x = a if c else b` / `return a if c else b` / `f(a if c else b)` also count as the two guarded statements."""
             if isinstance(value, ast.IfExp):
                 split(n, value.body, make, extra + tuple(literals(value.test, True)))
                 split(n, value.orelse, make, extra + tuple(literals(value.test, False)))
             elif extra:
                 clone = _Split(n)
                 add(make(expand(value, fn)), make(norm(value)), clone, extra)
+
+        def split_call_args(n, call):
+            """A statement that is one call with conditional-expression arguments: one guarded statement per combination (at most two such arguments)."""
+            slots = [("a", i) for i, a_ in enumerate(call.args) if isinstance(a_, ast.IfExp)] + [("k", i) for i, k_ in enumerate(call.keywords) if isinstance(k_.value, ast.IfExp)]
+            if not slots or len(slots) > 2:
+                return
+            import itertools
+
+            def alts(e):
+                if isinstance(e, ast.IfExp):
+                    return [(tuple(literals(e.test, True)) + c, v) for c, v in alts(e.body)] + [(tuple(literals(e.test, False)) + c, v) for c, v in alts(e.orelse)]
+                return [((), e)]
+            choices = [alts(call.args[i] if kind == "a" else call.keywords[i].value) for kind, i in slots]
+            for combo in itertools.product(*choices):
+                c2 = copy_tree(call)
+                extra = ()
+                for (kind, i), (cs, v) in zip(slots, combo):
+                    if kind == "a":
+                        c2.args[i] = v
+                    else:
+                        c2.keywords[i].value = v
+                    extra += cs
+                add(expand(c2, fn), norm(c2), _Split(n), extra)
         for n in ast.walk(fn):
             if n is fn:
                 continue
@@ -391,6 +414,8 @@ class Facts:
                 elif isinstance(n, ast.Assign) and isinstance(n.value, ast.IfExp):
                     tg = " = ".join(norm(t) for t in n.targets)
                     split(n, n.value, lambda v, tg=tg: f"{tg} = {v}")
+                elif isinstance(n, ast.Expr) and isinstance(n.value, ast.Call):
+                    split_call_args(n, n.value)
             elif isinstance(n, ast.Call):
                 add(expand(n, fn), norm(n), n)
 
